@@ -67,26 +67,29 @@ def _replay_cones(rows):
     from vopy.utils import get_alpha, get_alpha_vec
     bad = []
     for r in rows:
-        W = np.array(r["W"], dtype=float)
-        Wu = W / np.linalg.norm(W, axis=1, keepdims=True)
-        exp_a = np.sqrt(np.array([a[0] / a[1] for a in r["alpha"]]))
-        av = np.asarray(get_alpha_vec(Wu)).flatten()
-        cone = OrderingCone(Wu)
-        a_single = np.array([float(get_alpha(k, Wu)) for k in range(len(W))])
-        if not (np.allclose(av, exp_a, atol=2e-6) and np.allclose(np.asarray(cone.alpha).flatten(), exp_a, atol=2e-6)
-                and np.allclose(a_single, exp_a, atol=2e-6) and np.asarray(cone.alpha).shape == (len(W), 1)):
-            bad.append({"kind": "alpha", "row": r, "W": r["W"], "expected": exp_a.tolist(), "got": av.tolist()})
-        z = np.array([r["zstar"][0] / r["zstar"][2], r["zstar"][1] / r["zstar"][2]])
-        d1 = math.sqrt(r["d1sq"][0] / r["d1sq"][1])
-        for cls in (VOGP, VOGP_AD):
-            f = _Fake()
-            f.order = PolyhedralConeOrder(OrderingCone(W))
-            f.m = 2
-            u, d = cls.compute_u_star(f)
-            inC = bool(np.all(W @ u >= -1e-7))
-            if not (abs(d - d1) <= 1e-5 * max(1, d1) and np.allclose(u, z / np.linalg.norm(z), atol=1e-5) and abs(np.linalg.norm(u) - 1) < 1e-9 and inC):
-                bad.append({"kind": "ustar-" + cls.__name__, "row": r, "W": r["W"], "expected_u": (z / np.linalg.norm(z)).tolist(), "expected_d1": d1,
-                            "got_u": np.asarray(u).tolist(), "got_d1": float(d)})
+        try:
+            W = np.array(r["W"], dtype=float)
+            Wu = W / np.linalg.norm(W, axis=1, keepdims=True)
+            exp_a = np.sqrt(np.array([a[0] / a[1] for a in r["alpha"]]))
+            av = np.asarray(get_alpha_vec(Wu)).flatten()
+            cone = OrderingCone(Wu)
+            a_single = np.array([float(get_alpha(k, Wu)) for k in range(len(W))])
+            if not (np.allclose(av, exp_a, atol=2e-6) and np.allclose(np.asarray(cone.alpha).flatten(), exp_a, atol=2e-6)
+                    and np.allclose(a_single, exp_a, atol=2e-6) and np.asarray(cone.alpha).shape == (len(W), 1)):
+                bad.append({"kind": "alpha", "row": r, "W": r["W"], "expected": exp_a.tolist(), "got": av.tolist()})
+            z = np.array([r["zstar"][0] / r["zstar"][2], r["zstar"][1] / r["zstar"][2]])
+            d1 = math.sqrt(r["d1sq"][0] / r["d1sq"][1])
+            for cls in (VOGP, VOGP_AD):
+                f = _Fake()
+                f.order = PolyhedralConeOrder(OrderingCone(W))
+                f.m = 2
+                u, d = cls.compute_u_star(f)
+                inC = bool(np.all(W @ u >= -1e-7))
+                if not (abs(d - d1) <= 1e-5 * max(1, d1) and np.allclose(u, z / np.linalg.norm(z), atol=1e-5) and abs(np.linalg.norm(u) - 1) < 1e-9 and inC):
+                    bad.append({"kind": "ustar-" + cls.__name__, "row": r, "W": r["W"], "expected_u": (z / np.linalg.norm(z)).tolist(), "expected_d1": d1,
+                                "got_u": np.asarray(u).tolist(), "got_d1": float(d)})
+        except Exception as e:      # the library raised on a cone the specification has constants for
+            bad.append({"kind": "exception", "row": r, "W": r["W"], "expected": "constants", "got": repr(e)[:200]})
     return bad
 
 
